@@ -194,7 +194,9 @@ func (w *c13World) line(c *Ctx, in string) {
 			defer rw.close()
 			os.Chdir(w.dir) // (newRealWorld may have moved)
 			rw.ts.Settings.Compiler64, rw.ts.Settings.Compiler32, rw.ts.Settings.Nasm = w.dir+"/cc.sh", w.dir+"/cc.sh", w.dir+"/nasm.sh"
-			rw.ts.ListenerStart(handlers.LISTENER_PIVOT_SMB, handlers.SMBConfig{Name: "smb1", PipeName: "p"})
+			rw.ts.ListenerStart(handlers.LISTENER_PIVOT_SMB, handlers.SMBConfig{Name: "smb1", PipeName: "main_pipe"})
+			// a second listener whose name differs in case only, added later: the request names the first
+			rw.ts.ListenerStart(handlers.LISTENER_PIVOT_SMB, handlers.SMBConfig{Name: "SMB1", PipeName: "decoy_pipe"})
 			// the operator's connection: a websocket pair, the server side registered as client "alice"
 			got := make(chan *websocket.Conn, 1)
 			srv := httptest.NewServer(http.HandlerFunc(func(rw http.ResponseWriter, rq *http.Request) {
@@ -242,7 +244,37 @@ func (w *c13World) line(c *Ctx, in string) {
 			merr = nil
 			os.Remove(w.dir + "/payloads/Demon/MARKER")
 		}
-		c.Emit("%s => run=%s compilercalls=%d marker=%v", in, out, ncalls, merr == nil)
+		// which listener the compiled-in configuration is for: the pipe name, as UTF-16LE, inside -DCONFIG_BYTES={0x..,…}
+		pipe := "none"
+		for _, call := range strings.Split(string(raw), "\x01") {
+			for _, a := range strings.Split(call, "\x00") {
+				if i := strings.Index(a, "CONFIG_BYTES={"); i >= 0 {
+					var cfgb []byte
+					for _, h := range strings.Split(strings.TrimSuffix(a[i+len("CONFIG_BYTES={"):], "}"), ",") {
+						if v, err := strconv.ParseUint(strings.TrimPrefix(strings.TrimSpace(h), "0x"), 16, 8); err == nil {
+							cfgb = append(cfgb, byte(v))
+						}
+					}
+					wide := func(s string) string {
+						var b []byte
+						for _, ch := range []byte(s) {
+							b = append(b, ch, 0)
+						}
+						return string(b)
+					}
+					hasMain, hasDecoy := strings.Contains(string(cfgb), wide("main_pipe")), strings.Contains(string(cfgb), wide("decoy_pipe"))
+					switch {
+					case hasMain && hasDecoy:
+						pipe = "both"
+					case hasMain:
+						pipe = "main"
+					case hasDecoy:
+						pipe = "decoy"
+					}
+				}
+			}
+		}
+		c.Emit("%s => run=%s compilercalls=%d marker=%v pipe=%s", in, out, ncalls, merr == nil, pipe)
 	default:
 		panic("C13: unknown op " + parts[0])
 	}
@@ -442,7 +474,12 @@ func runC13(c *Ctx) {
 		}
 		return fmt.Sprintf("L=http pconn=%s pbind=%s kd=%d wh=%s method=%s rot=%s hosts=%s sec=%d ua=%s hdrs=%s hh=%s uris=%s proxy=%s",
 			H(pconn), H(pbind), r.Intn(2)*r.Intn(1<<40), H(wh), H(method), H(pickStr("round-robin", "random", "x")), strings.Join(hostsL, ","),
-			r.Intn(2), H(uni()), strList(3, func() string { return "X-H: " + uni() }), H(pickStr("", "", "front.example.org")),
+			r.Intn(2), H(uni()), strList(3, func() string {
+				if r.Chance(1, 6) {
+					return "" // a blank entry (a listener restored from the database without headers has exactly one)
+				}
+				return "X-H: " + uni()
+			}), H(pickStr("", "", "front.example.org")),
 			strList(3, func() string { return "/" + strings.ReplaceAll(uni(), ",", "") }), proxy)
 	}
 	svcNames := []string{"svc", "My Service", "a\"; touch MARKER; echo \"", "$(touch MARKER)", "`touch MARKER`", "x' ; touch MARKER ; '", "a&&touch MARKER", "a|touch MARKER", "a\ntouch MARKER", "name-with_dots.1", ""}
